@@ -23,6 +23,31 @@ theorem decQ_progress : Progress decQ where
     intro x n h
     simp [decQ, structUnpack, IENAQ_FORMAT, IENAQ_FORMAT_LEN, Fmt.size, codesSize, Code.size] at h
 
+/-- [review] the per-iteration bound, stated: an accepted IENA-Q parameter advances the offset by the 4-byte
+    header (DESIGN §5 says "IENAM/Q ≥ 6"; for Q the header format `>HH` is 4 bytes) + dataset + pad byte -/
+theorem decQ_advance_ge (b : Bytes) (p : QParam) (n : Nat) (h : decQ b = .ok (p, n)) :
+    4 ≤ n ∧ n = 4 + p.dataset.length + p.dataset.length % 2 ∧ 4 + p.dataset.length ≤ b.length := by
+  simp only [decQ] at h
+  split at h
+  · rename_i pid m hh
+    have hl := structUnpack_ok_length _ _ _ hh
+    simp only [IENAQ_FORMAT, IENAQ_FORMAT_LEN, Fmt.size, codesSize, Code.size, List.length_take] at hl
+    split at h
+    · simp at h
+    · rename_i hlt
+      simp only [IENAQ_FORMAT_LEN, List.length_drop] at hlt
+      simp only [Except.ok.injEq, Prod.mk.injEq, IENAQ_FORMAT_LEN] at h
+      obtain ⟨rfl, rfl⟩ := h
+      simp only [slice_length]
+      have : min (4 + m) b.length - 4 = m := by omega
+      rw [this]
+      refine ⟨by omega, ?_, by omega⟩
+      rcases Nat.mod_two_eq_zero_or_one m with h2 | h2 <;> simp [h2]
+  · simp at h
+  · simp at h
+
+example : decQ [0, 1, 0, 3, 0xAA, 0xBB, 0xCC, 0, 9, 9] = .ok (⟨1, [0xAA, 0xBB, 0xCC]⟩, 8) := by rfl
+
 /-- `IENAQ.unpack` terminates on every buffer: the fuel the model gives the loop (payload length + 1)
     is never exhausted -/
 theorem IENAQ_unpack_total (t : QState) (buf : Bytes) : (QState.unpack t buf).2 ≠ .error .fuel := by
@@ -57,6 +82,35 @@ theorem IENAQ_items_le (t : QState) (buf : Bytes) (h : (QState.unpack t buf).2 =
         simp only
         intro _
         have h1 := decOff_items_le decQ moreRem b'.payload decQ_progress _ 0 ps hd
+        omega
+
+/-- [review] witness: IENA-Q packet with two parameters -/
+def wIENAQ : Bytes :=
+  [0, 1, 0, 14, 0, 0, 0, 0, 0, 0, 0, 0, 0, 0,  0, 1, 0, 3, 0xAA, 0xBB, 0xCC, 0,  0, 3, 0, 0,  0xDE, 0xAD]
+
+example : (QState.unpack QState.fresh wIENAQ).2 = .ok () ∧
+    (QState.unpack QState.fresh wIENAQ).1.parameters = [⟨1, [0xAA, 0xBB, 0xCC]⟩, ⟨3, []⟩] := ⟨by rfl, by rfl⟩
+
+/-- [review] work bound with the real stride, relative to the input length -/
+theorem IENAQ_items_stride (t : QState) (buf : Bytes) (h : (QState.unpack t buf).2 = .ok ()) :
+    (QState.unpack t buf).1.parameters.length * 4 ≤ (buf.length - 16) + 3 := by
+  revert h
+  simp only [QState.unpack]
+  cases hu : Base.unpack t.base buf with
+  | mk b' r =>
+    cases r with
+    | error e => simp
+    | ok u =>
+      have hpl := (IENA_unpack_ok_payload t.base buf (by rw [hu])).2.1
+      rw [hu] at hpl
+      simp only at hpl ⊢
+      cases hd : decOff decQ moreRem b'.payload (b'.payload.length + 1) 0 with
+      | error e => simp
+      | ok ps =>
+        simp only
+        intro _
+        have h1 := Acra.Lemmas.ReviewC08.decOff_items_stride decQ moreRem b'.payload decQ_progress 4
+          (fun b x n hb => (decQ_advance_ge b x n hb).1) _ 0 ps hd
         omega
 
 /-- the IENA-D parameter loop is a `for` over a range computed from the payload length: it has no
@@ -132,6 +186,49 @@ theorem IENAD_items_le (t : DState) (buf : Bytes) (h : (DState.unpack t buf).2 =
           exact Nat.div_le_self _ _
         · simp
 
+/-- [review] witness: IENA-D packet, `keystatus & 7 = 1` (6 bytes per parameter), two parameters -/
+def wIENAD : Bytes :=
+  [0, 1, 0, 14, 0, 0, 0, 0, 0, 0, 1, 0, 0, 0,  0, 1, 0, 2, 0, 3,  0, 4, 0, 5, 0, 6,  0xDE, 0xAD]
+
+example : (DState.unpack DState.fresh wIENAD).2 = .ok () ∧
+    (DState.unpack DState.fresh wIENAD).1.parameters = [⟨1, 2, [3]⟩, ⟨4, 5, [6]⟩] := ⟨by rfl, by rfl⟩
+
+example : decDAll 1 [0, 1, 0, 2, 0, 3] [0] = .ok [⟨1, 2, [3]⟩] := by rfl   -- hypothesis of `decDAll_length`
+example : decD1 1 [0, 1, 0, 2, 0] 0 = .error .index := by rfl               -- hypothesis of `decD1_error`
+
+/-- [review] the exact count (the `for` loop has no fuel, so the explicit bound is the whole content of C08
+    here): an accepted IENA-D packet has exactly `|payload| / (2n+4)` parameters, `n = keystatus & 7`, and
+    the payload is a whole number of them — so at most `|payload| / 4 = (|buf| − 16)/4` parameters -/
+theorem IENAD_items_eq (t : DState) (buf : Bytes) (h : (DState.unpack t buf).2 = .ok ()) :
+    (DState.unpack t buf).1.parameters.length * (((DState.unpack t buf).1.base.keystatus &&& 0x7) * 2 + 4) =
+      (DState.unpack t buf).1.base.payload.length ∧
+    (DState.unpack t buf).1.base.payload.length = buf.length - 16 := by
+  revert h
+  simp only [DState.unpack]
+  cases hu : Base.unpack t.base buf with
+  | mk b' r =>
+    cases r with
+    | error e => simp
+    | ok u =>
+      have hpl := (IENA_unpack_ok_payload t.base buf (by rw [hu])).2.1
+      rw [hu] at hpl
+      simp only at hpl ⊢
+      split
+      · simp
+      · rename_i hrem
+        split
+        · rename_i ps hps
+          intro _
+          have := decDAll_length _ _ _ _ hps
+          simp only [List.length_range] at this
+          simp only [this]
+          refine ⟨?_, hpl⟩
+          have hdm := Nat.div_add_mod b'.payload.length ((b'.keystatus &&& 0x7) * 2 + 4)
+          have hml := Nat.div_mul_le_self b'.payload.length ((b'.keystatus &&& 0x7) * 2 + 4)
+          simp only [ne_eq, Decidable.not_not] at hrem
+          omega
+        · simp
+
 theorem decN1_error (dwc : Nat) (payload : Bytes) (off : Nat) (e : Err) (h : decN1 dwc payload off = .error e) :
     e = .index := by
   simp only [decN1] at h
@@ -200,6 +297,47 @@ theorem IENAN_items_le (t : NState) (buf : Bytes) (h : (NState.unpack t buf).2 =
           simp only [List.length_range] at this
           simp only [this]
           exact Nat.div_le_self _ _
+        · simp
+
+/-- [review] witness: IENA-N packet, `keystatus & 7 = 1` (4 bytes per parameter), three parameters -/
+def wIENAN : Bytes :=
+  [0, 1, 0, 14, 0, 0, 0, 0, 0, 0, 1, 0, 0, 0,  0, 1, 0, 2,  0, 3, 0, 4,  0, 5, 0, 6,  0xDE, 0xAD]
+
+example : (NState.unpack NState.fresh wIENAN).2 = .ok () ∧
+    (NState.unpack NState.fresh wIENAN).1.parameters = [⟨1, [2]⟩, ⟨3, [4]⟩, ⟨5, [6]⟩] := ⟨by rfl, by rfl⟩
+
+example : decNAll 1 [0, 1, 0, 2] [0] = .ok [⟨1, [2]⟩] := by rfl   -- hypothesis of `decNAll_length`
+example : decN1 1 [0, 1, 0] 0 = .error .index := by rfl            -- hypothesis of `decN1_error`
+
+/-- [review] exact count for IENA-N: `|payload| / (2n+2)` parameters, payload a whole number of them -/
+theorem IENAN_items_eq (t : NState) (buf : Bytes) (h : (NState.unpack t buf).2 = .ok ()) :
+    (NState.unpack t buf).1.parameters.length * (((NState.unpack t buf).1.base.keystatus &&& 0x7) * 2 + 2) =
+      (NState.unpack t buf).1.base.payload.length ∧
+    (NState.unpack t buf).1.base.payload.length = buf.length - 16 := by
+  revert h
+  simp only [NState.unpack]
+  cases hu : Base.unpack t.base buf with
+  | mk b' r =>
+    cases r with
+    | error e => simp
+    | ok u =>
+      have hpl := (IENA_unpack_ok_payload t.base buf (by rw [hu])).2.1
+      rw [hu] at hpl
+      simp only at hpl ⊢
+      split
+      · simp
+      · rename_i hrem
+        split
+        · rename_i ps hps
+          intro _
+          have := decNAll_length _ _ _ _ hps
+          simp only [List.length_range] at this
+          simp only [this]
+          refine ⟨?_, hpl⟩
+          have hdm := Nat.div_add_mod b'.payload.length ((b'.keystatus &&& 0x7) * 2 + 2)
+          have hml := Nat.div_mul_le_self b'.payload.length ((b'.keystatus &&& 0x7) * 2 + 2)
+          simp only [ne_eq, Decidable.not_not] at hrem
+          omega
         · simp
 
 end Acra.Props.C08
